@@ -512,10 +512,38 @@ func c14QuiesceHeld(t *testing.T, g c14Holder, base int, what string) {
 	deadline := time.Now().Add(20 * time.Second)
 	for runtime.NumGoroutine()-g.nheld() > base {
 		if time.Now().After(deadline) {
+			if c14OnHung != nil && c14OnHung(what) {
+				// wired family: something the step started never ended - an event of the trace (Hung), not a dead driver
+				return
+			}
 			t.Fatalf("c14: no quiescence after %s (%d goroutines, %d held, base %d)", what, runtime.NumGoroutine(), g.nheld(), base)
 		}
 		runtime.Gosched()
 		time.Sleep(50 * time.Microsecond)
+	}
+}
+
+// c14OnHung, when set (wired family), turns a step that does not come to rest into a Hung line of the trace.
+var c14OnHung func(what string) bool
+
+// c14Guarded runs a synchronous call of the code under test with a watchdog: a panic on the calling goroutine is a
+// Crash line, a call that does not return a Hung line (no action of the specification allows either).
+func c14Guarded(tr *verifsupport.Trace, sc int, what string, fn func()) bool {
+	done := make(chan interface{}, 1)
+	go func() {
+		defer func() { done <- recover() }()
+		fn()
+	}()
+	select {
+	case p := <-done:
+		if p != nil {
+			tr.Emit(verifsupport.Ev{"sc": sc, "ev": "Crash", "what": what, "panic": fmt.Sprint(p)})
+			return false
+		}
+		return true
+	case <-time.After(30 * time.Second):
+		tr.Emit(verifsupport.Ev{"sc": sc, "ev": "Hung", "what": what})
+		return false
 	}
 }
 
@@ -542,6 +570,7 @@ type c14World struct {
 	sub     *c14Submitter
 	sub2    *c14Submitter // second beacon node behind the multinode submitter (wired family)
 	wired   *c14Wired     // nil: the fake-based family
+	dead    bool          // wired family: a Crash / Hung line ended the history
 	att     *c14Attester
 	agg     *c14Aggregator
 	accts   *mockaccountmanager.ValidatingAccountsProvider
@@ -966,7 +995,11 @@ func TestVerifC14(t *testing.T) {
 		if sc.Wide {
 			off = uint64(rng.Intn(1<<18)) * spe // keeps slots well below 2^31
 		}
+		c14OnHung = nil
 		for _, st := range sc.Steps {
+			if w != nil && w.dead {
+				break
+			}
 			switch st.Ev {
 			case "Reset":
 				if st.Spe != 0 {
@@ -974,6 +1007,16 @@ func TestVerifC14(t *testing.T) {
 				}
 				w = c14Build(t, ctx, spe, st.Target, st.Now+off, sc.Wired)
 				w.off = off
+				if sc.Wired != nil {
+					world, scID := w, sc.Sc
+					c14OnHung = func(what string) bool {
+						if !world.dead {
+							world.dead = true
+							tr.Emit(verifsupport.Ev{"sc": scID, "ev": "Hung", "what": what})
+						}
+						return true
+					}
+				}
 				// Vouch's validators (accounts) are the same throughout: a re-org changes duties, not accounts.
 				for _, x := range sc.Steps {
 					if x.Ev == "Duty" && x.Op != "resize" {
@@ -1026,8 +1069,18 @@ func TestVerifC14(t *testing.T) {
 				w.signer.setFail(st.Sfail, off)
 				w.scriptCall(rng)
 				base := runtime.NumGoroutine() - w.holds.nheld()
-				w.svc.subscribeToBeaconCommittees(ctx, epoch, accounts)
+				if sc.Wired != nil {
+					if !c14Guarded(tr, sc.Sc, "Subscribe", func() { w.svc.subscribeToBeaconCommittees(ctx, epoch, accounts) }) {
+						w.dead = true
+						break
+					}
+				} else {
+					w.svc.subscribeToBeaconCommittees(ctx, epoch, accounts)
+				}
 				c14QuiesceHeld(t, w.holds, base, "Subscribe")
+				if w.dead {
+					break
+				}
 				w.gate.set(false, false)
 				subs, calls := w.collect()
 				info, present := w.projectInfo(epoch)
@@ -1067,6 +1120,9 @@ func TestVerifC14(t *testing.T) {
 				released := w.gate.release(!st.Fail)
 				// the goroutine let go runs on until the subscription has ended
 				c14QuiesceHeld(t, w.holds, base, "Resub")
+				if w.dead {
+					break
+				}
 				subs, calls := w.collect()
 				info, present := w.projectInfo(phase0.Epoch(w.epoch))
 				tr.Emit(w.callStats(verifsupport.Ev{"sc": sc.Sc, "ev": "Resub", "ok": released && !st.Fail, "released": released, "info": info,
@@ -1162,8 +1218,15 @@ func TestVerifC14(t *testing.T) {
 					w.agg.mu.Unlock()
 					if w.wired != nil {
 						w.wired.takeAggregates()
+						// the job runs the real Aggregate (real signer, real submitter) on this goroutine
+						name := job.Name
+						if !c14Guarded(tr, sc.Sc, name, func() { w.sched.Fire(ctx, name) }) {
+							w.dead = true
+							break
+						}
+					} else {
+						w.sched.Fire(ctx, job.Name)
 					}
-					w.sched.Fire(ctx, job.Name)
 					w.agg.mu.Lock()
 					var ad *attestationaggregator.Duty
 					if len(w.agg.duties) == before+1 {
@@ -1195,6 +1258,9 @@ func TestVerifC14(t *testing.T) {
 					}
 					jobs = append(jobs, ev)
 				}
+				if w.dead {
+					break
+				}
 				if w.wired != nil {
 					// the real submitters behind the aggregation jobs work on goroutines of their own (the multinode style
 					// keeps a timer goroutine for its timeout): they have ended before the next step takes its bearings
@@ -1211,8 +1277,9 @@ func TestVerifC14(t *testing.T) {
 				t.Fatalf("c14: unknown step %q", st.Ev)
 			}
 		}
-		if w != nil {
+		if w != nil && !w.dead {
 			w.drain(t)
 		}
+		c14OnHung = nil
 	}
 }
